@@ -163,23 +163,30 @@ def kernel(chk, prog):
     tl.vec[pn[1]] = {pn[1]: ONE}
     tl.vec[pn[2]] = {'p0': ONE}
     try:
-        for s in kids(f.body):
-            tl.stmt(s)
+        live, exits = exec_paths(tl, list(kids(f.body)))
     except NotUnderstood as e:
         chk.broke('CalcBlockLoadings: not understood: %s' % e)
         return False
-    want = vadd({'p0': ONE}, tl.prod({('M', pn[0]): ONE}, {pn[1]: ONE}, True), ONE / vdot({pn[1]: ONE}, {pn[1]: ONE}))
-    # the code divides the whole of p (old content included) by t't: with p zero on entry both readings agree; callers are checked to pass a zeroed p
-    got = tl.vec[pn[2]]
-    alt = vscale(vadd({'p0': ONE}, tl.prod({('M', pn[0]): ONE}, {pn[1]: ONE}, True)), ONE / vdot({pn[1]: ONE}, {pn[1]: ONE}))
-    report_partial(chk, R, f, tl, 'body')
-    if vsame(got, want) or vsame(got, alt):
-        chk.instance(R, '%s CalcBlockLoadings: p <- (p +) Xb\' t / t\'t  [%s]' % (f.where, vshow(got)[:120]))
-        return True
-    chk.instance(R, '%s CalcBlockLoadings computes %s' % (f.where, vshow(got)[:200]), 'refuted')
-    chk.violation(Finding('CPCA.block-loadings', rel(f.file), f.name, 'definition', f.where,
-                          'CalcBlockLoadings leaves p = %s, not Xb\' t / t\'t added to a zeroed p' % vshow(got)[:300]))
-    return False
+    base_ = {('M', pn[0]): ONE}
+    tt = vdot({pn[1]: ONE}, {pn[1]: ONE})
+    xt = tl.prod(base_, {pn[1]: ONE}, True)
+    # p may be zeroed by the routine (then the old content p0 is gone) or added to (callers are checked to pass a zeroed p)
+    wants = [vadd({'p0': ONE}, xt, ONE / tt), vscale(vadd({'p0': ONE}, xt), ONE / tt), vscale(xt, ONE / tt)]
+    ok_all = True
+    for st in live + exits:
+        got = st.vec[pn[2]]
+        path = ' && '.join(getattr(st, 'path', []))
+        report_partial(chk, R, f, st, 'body')
+        if any(vsame(got, w_) for w_ in wants):
+            chk.instance(R, '%s CalcBlockLoadings%s: p <- (p +) Xb\' t / t\'t  [%s]' % (f.where, ' (path %s)' % path if path else '', vshow(got)[:120]))
+            continue
+        ok_all = False
+        chk.instance(R, '%s CalcBlockLoadings%s computes %s' % (f.where, ' on the path `%s`' % path if path else '', vshow(got)[:200]), 'refuted')
+        chk.violation(Finding('CPCA.block-loadings', rel(f.file), f.name, 'definition', f.where,
+                              'CalcBlockLoadings%s leaves p = %s, not Xb\' t / t\'t (t runs over the objects of the block)%s' %
+                              (' on the path taken when `%s`' % path if path else '', vshow(got)[:300],
+                               ': which product is formed depends on a coincidence of the block\'s dimensions' if path else '')))
+    return ok_all
 
 
 def fit(chk, prog):
